@@ -372,8 +372,9 @@ RETCODE adfWriteNewBitmap ( struct AdfVolume * const vol )
         root.bmExt = bitExtBlock[ k ];
         while( nBlock<vol->bitmapSize ) {
             int i = 0;
+            memset ( &bitme, 0, sizeof(bitme) );
             while( i<127 && nBlock<vol->bitmapSize ) {
-                bitme.bmPages[i] = vol->bitmapBlocks[nBlock] = sectList[i];
+                bitme.bmPages[i] = vol->bitmapBlocks[nBlock] = sectList[nBlock];
                 i++;
                 nBlock++;
             }
